@@ -271,6 +271,12 @@ def init_table(case):
 
 def run_impl(case):
     """Returns dict(code, warn_nf, warn_conv, table, calls, outs, errind, exc)."""
+    # import before entering catch_warnings: astropy installs its warnings->logger hook at import
+    # time, which would otherwise swallow the warnings of the first case
+    import astropy.table  # noqa: F401
+    import astropy.modeling.fitting  # noqa: F401
+    import photutils.psf  # noqa: F401
+    import photutils.background  # noqa: F401
     data = arr(case['data'])
     mask = arr(case['mask'], bool)
     error = arr(case['error'])
@@ -510,13 +516,14 @@ def oracle(case, res):
     else:
         gids = clusters_single_linkage(x, y, g['t'])
     # windows
-    wins, npix, overlap = [], [], []
+    wins, npix, overlap, wins_all = [], [], [], []
     for i in range(n):
         y0 = math.ceil(y[i] - fy / 2)
         x0 = math.ceil(x[i] - fx / 2)
         pix = [(yy, xx) for yy in range(max(0, y0), min(ny, y0 + fy))
                for xx in range(max(0, x0), min(nx, x0 + fx))]
         overlap.append(len(pix) > 0)
+        wins_all.append(pix)
         pix = [p for p in pix if not eff[p]]
         wins.append(pix)
         npix.append(len(pix))
@@ -543,6 +550,8 @@ def oracle(case, res):
                     expect_code = 3
                     break
     if res['code'] != expect_code:
+        # HEAD's _make_mask leaves NaNs unmasked when mask= is given: the fitter (NonFiniteValueError) or the
+        # aperture-photometry flux guess (NaN -> 'Initial guess is outside of provided bounds') then fails
         sig = '_make_mask:mask-and-nonfinite' if (mask is not None and (bad & ~mask).any()
                                                   and res['code'] == 99) else 'PSFPhotometry:outcome'
         out.append((sig, f"outcome code {res['code']} ({res['exc']}) but the property expects {expect_code}"))
@@ -562,7 +571,7 @@ def oracle(case, res):
         for sid, par in zip(o['ids'], o['par']):
             byid[sid] = (par, o['info'])
     psf = make_psf(case['psf'])
-    fixd, _ = psf_fixed_nextra(psf)
+    fixd, nextra_ = psf_fixed_nextra(psf)
     xyb = case['xy_bounds']
     if xyb is not None and not isinstance(xyb, (list, tuple)):
         xyb = [xyb, xyb]
@@ -580,7 +589,10 @@ def oracle(case, res):
         if int(tbl['group_size'][r]) != sizes[gids[i]]:
             bad_('PSFPhotometry:group_size', f"group_size {int(tbl['group_size'][r])} != {sizes[gids[i]]}")
         if int(tbl['npixfit'][r]) != npix[i]:
-            sig = ('_make_mask:mask-and-nonfinite' if (mask is not None and (bad & ~mask).any())
+            # the value the HEAD text of _make_mask produces: only the caller's mask is applied
+            head = (sum(1 for p in wins_all[i] if not mask[p]) if mask is not None else None)
+            sig = ('_make_mask:mask-and-nonfinite' if (head is not None and head != npix[i]
+                                                       and int(tbl['npixfit'][r]) == head)
                    else '_define_fit_data:npixfit')
             bad_(sig, f"npixfit {int(tbl['npixfit'][r])} != {npix[i]} unmasked finite pixels of the window")
         if ids[i] not in byid:
@@ -617,6 +629,26 @@ def oracle(case, res):
             d = int(tbl['flags'][r]) ^ fl
             sig = '_define_flags:param_cov-none' if d == 16 else f'_define_flags:bits-{d}'
             bad_(sig, f"flags {int(tbl['flags'][r])} != documented {fl}")
+        # x_err / y_err / flux_err = this source's slice of sqrt(diag(param_cov)) of its own call
+        cov = info.get('param_cov', None)
+        ids_call = next(o['ids'] for o in res['outs'] if ids[i] in o['ids'])
+        slot = ids_call.index(ids[i])
+        nfree_ = sum(1 for v in fixd if not v) + nextra_
+        want_err = {}
+        pos_ = 0
+        for nm, fxd in zip(('flux', 'x', 'y'), fixd):
+            if fxd or cov is None:
+                want_err[nm] = math.nan
+            else:
+                want_err[nm] = math.sqrt(np.diag(cov)[slot * nfree_ + pos_])
+            if not fxd:
+                pos_ += 1
+        for nm in ('x', 'y', 'flux'):
+            gv = tbl[nm + '_err'][r]
+            gv = float(getattr(gv, 'value', gv))
+            wv = want_err[nm]
+            if not (gv == wv or (math.isnan(gv) and math.isnan(wv))):
+                bad_('_split_param_errs:err-columns', f'{nm}_err {gv} is not the error of this source ({wv})')
         for k_, (nm, fxd) in enumerate(zip(('flux', 'x', 'y'), fixd)):
             if fxd:
                 init_v = {'flux': float(getattr(tbl['flux_init'][r], 'value', tbl['flux_init'][r])), 'x': x[i], 'y': y[i]}[nm]
@@ -921,8 +953,8 @@ def run(ctx):
         '(astropy TRFLSQFitter) and on model rendering; tested on generated scenes (support_tests), and proved only '
         'in the pass-through form "*_partial" (hypotheses: the fitter returns the truth / leaves fixed parameters alone)',
     ]
-    n_script = 900 if quick else 6000
-    n_real = 60 if quick else 400
+    n_script = 700 if quick else 5000
+    n_real = 45 if quick else 300
     cases = [gen_script_case(ctx.rng) for _ in range(n_script)]
     cases += [gen_real_case(ctx.rng) for _ in range(n_real)]
     terms, kept, results = [], [], []
